@@ -12,7 +12,7 @@ Open Scope N_scope.
 Definition rcst := (rcstate * list bytes * racc)%type.
 
 Definition size_of_line (raw : bytes) : bytes :=
-  strip_bws (match split_first 59 raw with Some (sz, _) => sz | None => raw end).
+  strip_bws (match split_byte 59 raw with Some (sz, _) => sz | None => raw end).
 
 Definition rstep_c (lim : limits) (mt : N) (s : rcst) (chunk : bytes) : (rcst * bytes) + rpres :=
   let '(c, tl, evs) := s in
@@ -24,7 +24,7 @@ Definition rstep_c (lim : limits) (mt : N) (s : rcst) (chunk : bytes) : (rcst * 
       match find_lf chunk with
       | Some (raw, rest) =>
         if max_line lim <? lenN raw then inr (QFail ELineTooLong evs) else
-        let size_b := strip_bws (match split_first 59 raw with Some (sz, _) => sz | None => raw end) in
+        let size_b := strip_bws (match split_byte 59 raw with Some (sz, _) => sz | None => raw end) in
         if negb (nonempty size_b && forallb hex_digit size_b) then inr (QFail ETransferEncoding evs)
         else let size := parse_hex size_b in
              if size =? 0 then inl ((RTrail0, tl, evs), rest)
